@@ -1,0 +1,27 @@
+//go:build verif
+
+package build
+
+// Exports for the verification harness in /verif (build tag "verif" only).
+
+import "go/ast"
+
+// VerifAugment merges overlay files into original files with the real
+// augmentation functions, in the order parseAndAugment applies them, and returns
+// the resulting file list (overlays first).
+func VerifAugment(importPath string, originalFiles, overlayFiles []*ast.File) []*ast.File {
+	overrides := make(map[string]overrideInfo)
+	for _, file := range overlayFiles {
+		augmentOverlayFile(file, overrides)
+	}
+	delete(overrides, "init")
+	for _, file := range originalFiles {
+		augmentOriginalImports(importPath, file)
+	}
+	if len(overrides) > 0 {
+		for _, file := range originalFiles {
+			augmentOriginalFile(file, overrides)
+		}
+	}
+	return append(overlayFiles, originalFiles...)
+}
